@@ -69,6 +69,15 @@ def run(ctx):
             outs = fuzz.run(ab, hooks, ctx.seeds(workers, "fuzz-asan"), 8, 600, workers)
             res.extra["lines_asan_build"] = collect(res, outs, "asan")
             res.extra["asan"] = "no report" if not any(f.replay.get("build") == "asan" for f in res.findings) else "see findings"
+    # E1 histories with hostile masks: multi-step states (modes, renames, ranks, endings) the line fuzzer
+    # rarely builds; only aborts / unexplained closes / ghosts count here
+    prof = {"name": "c05-e1", "max_clients": 6, "hostile_masks": True, "stop_props": ["C05"], "invalid_nicks": True,
+            "empty_text": 0.05,
+            "weights": dict(wallops=5, oper=5, umode=8, nick=8, kill=2, kick=6, cmode=14, who=5, whois=5, names=3,
+                            invite=4, topic=3, end=4, quit=2)}
+    results, cover, shapes = common.e1_check(ctx, res, prof, n_quick=48, n_thorough=480, steps=150, steps_thorough=300,
+                                             relevant=lambda t: False, nontrivial_rule="")
+    res.extra["e1_hostile_steps"] = sum(r["steps"] for r in results)
     res.rule = ("grammar + mutation fuzz: every verb x arity 0..max+2 x parameter shape classes (existing / non-existing / own "
                 "/ duplicated names, empty, 1 byte, 500 bytes, multi-byte, invalid UTF-8, over-long, wildcard-heavy masks, masks "
                 "with literal runs longer than any subject, numeric extremes, sign-switching mode strings with missing/excess "
